@@ -109,6 +109,8 @@ func ChildMain(args []string) {
 					runSMTCase(e, u, c, ci)
 				}
 			}
+		case "cache":
+			runCacheCase(e, u, ci)
 		case "store":
 			_, blocks, maxBig := storeParams(thorough)
 			runStoreCase(e, u, ci, blocks, maxBig)
@@ -225,6 +227,7 @@ func runChunk(o *drv.Out, grain string, n, total int) {
 // Run is the C08 driver: grain (a) the SMT at many key lengths, grain (b) the real Store.
 func Run(o *drv.Out) {
 	thorough := o.Tier == "thorough"
+	runChunk(o, "cache", 160, cacheCaseCount(thorough)) // permanent corpus first
 	for _, c := range smtConfigs(thorough) {
 		runChunk(o, "smt", c.n, c.cases)
 	}
